@@ -349,6 +349,16 @@ def gen_c13(tier, seed):
         if rng.random() < 0.5:
             steps += [bk(o)]
         scens.append({"id": sid("C13", "flt", i), "props": ["C13"], "mode": "fault", "tags": ["faults"], "steps": steps})
+    # the source changing under the backup: a file cut shorter (or removed) between the listing of its
+    # directory and its turn to be read
+    for i in range(8 if tier == "quick" else 80):
+        names = ["a", "b", "c", "d", "e"][:rng.randrange(3, 6)]
+        t = [node("/", "Dir")] + [node("/" + nm, "File", bytes([j + 1]) * rng.randrange(3, 7), mt=(1600005000 + j, 0)) for j, nm in enumerate(names)]
+        o = rng.choice([{"H": 1000, "M": 1000, "S": 1000}, {"H": 2, "M": 8, "S": 7}, {"H": 1000, "M": 4, "S": 2}, {"H": 3, "M": 1000, "S": 0}])
+        victims = rng.sample(names[1:], rng.randrange(1, min(3, len(names))))
+        during = [{"after": "/" + names[0], "path": "/" + v, "len": rng.choice([0, 1, 2, -1])} for v in victims]
+        scens.append({"id": sid("C13", "shrink", i), "props": ["C13"], "mode": "mutating", "tags": ["source-changes-during-backup"],
+                      "steps": [{"op": "tree", "tree": t}, bk(o, mutate_during=during), {"op": "list", "band": 0}]})
     # directed: several files with the same content, each stored as a block of its own, and every
     # write of the run made to fail in turn: what a failed block write leaves in memory must not make a
     # later identical block look stored
@@ -1222,6 +1232,11 @@ def gen_c16(tier, seed):
                 steps.append({"op": "restore", "band": 0, "subtree": rng.choice(ds)})
         if rng.random() < 0.3:
             steps.append({"op": "restore", "band": 0, "excl": [rng.choice(["a", "l", "/d", "*"])]})
+        # the refusal of a non-empty destination does not depend on what is selected
+        if rng.random() < 0.35:
+            ds = [path_str(nd["p"]) for nd in t if nd["p"] and nd["k"] == "Dir"]
+            sel = {"subtree": rng.choice(ds)} if ds and rng.random() < 0.6 else {"excl": [rng.choice(["a", "l", "/d", "*", "/"])]}
+            steps.append(dict({"op": "restore", "band": 0, "dest": "nonempty", "overwrite": False}, **sel))
         scens.append({"id": sid("C16", "s", i), "props": ["C16"], "mode": "clean", "tags": ["sandbox"], "steps": steps})
     return scens
 
@@ -1244,6 +1259,19 @@ def gen_c17(tier, seed):
             f3 = rng.choice(flavors)
             steps += [{"op": "new_archive", "rt": f3}] + hist + [{"op": "archive_digest"}]
         scens.append({"id": sid("C17", "r", i), "props": ["C17"], "mode": "clean", "tags": ["replay", f1, f2], "steps": steps})
+    # files whose mtime is slightly ahead of (or just behind) the clock when the first replay starts, and
+    # a second replay that starts a few seconds later: nothing but the documented start/end times may
+    # depend on when a backup runs
+    NOW = 9_000_000_000
+    for i in range(4 if tier == "quick" else 24):
+        t = [node("/", "Dir")] + [node("/" + nm, "File", bytes([j + 1]) * rng.randrange(1, 4), mt=(NOW + rng.choice([-2, 0, 1, 2, 3]), 0)) for j, nm in enumerate(["racy", "s1", "s2"])]
+        t.append(node("/changing", "File", b"\x01", mt=(1600006000, 0)))
+        t2 = [dict(n) for n in t]
+        t2[-1] = node("/changing", "File", b"\x02\x02", mt=(1600006001, 0))
+        o = rng.choice([{"H": 1000, "M": 1000, "S": 1000}, {"H": 2, "M": 6, "S": 4}])
+        hist = [{"op": "tree", "tree": t}, bk(o), {"op": "tree", "tree": t2}, bk(o)]
+        steps = [{"op": "new_archive", "rt": "ct"}] + hist + [{"op": "archive_digest"}, {"op": "new_archive", "rt": "ct", "sleep_ms": 4200}] + hist + [{"op": "archive_digest"}]
+        scens.append({"id": sid("C17", "clock", i), "props": ["C17"], "mode": "clean", "tags": ["replay", "clock"], "steps": steps})
     for i in range(8 if tier == "quick" else 100):
         hist = big_history(rng, nsteps=rng.choice([1, 2]))
         f1, f2 = rng.sample(flavors, 2)
@@ -1280,6 +1308,14 @@ def gen_c18(tier, seed):
         for _ in range(rng.randrange(1, 3)):
             t2 = mut(rng, t2, maxlen=5, names=["a", "ab", "a.b", "b", "-", "é", "z", "d"],
                              mtimes=cvlib.MTIMES + [(1600000000, 1), (1600000000, 2), (1600000001, 123456788), (1600000001, 5), (1600000002, 0), (1600000002, 999999998)])
+            if rng.random() < 0.3:
+                # only the owner or the group changes -- to another name, or to an id that has no name
+                t2 = [dict(n) for n in t2]
+                v = rng.choice(t2)
+                if rng.random() < 0.5:
+                    v["u"] = rng.choice(["#54321", "daemon", "bin", "#61000"])
+                else:
+                    v["g"] = rng.choice(["#54321", "daemon", "bin", "#61000"])
             steps += [{"op": "tree", "tree": t2}, {"op": "diff", "band": -2, "include_unchanged": rng.random() < 0.5},
                       {"op": "diff", "band": 0, "include_unchanged": False}, bk(o),
                       {"op": "diff", "band": -2, "include_unchanged": False}]
